@@ -200,6 +200,9 @@ class ContractAPI(object):
             sec_keys.append(data)
         if pc >= len(script):
             return None
+        # the key count is a small-integer opcode too: OP_NOP (OP_16 + 1) and friends are not numbers
+        if not OP_1 <= opcode <= OP_16:
+            return None
         n = opcode + (1 - OP_1)
         if m > n or len(sec_keys) != n:
             return None
